@@ -20,6 +20,7 @@ def run(ctx: Ctx, chk) -> None:
     chk.run_rule(episode1, ctx)
     chk.run_rule(rearm1, ctx)
     chk.run_rule(cover1, ctx)
+    chk.run_rule(who_marker, ctx)
 
 
 def _wrapper(ctx: Ctx) -> FuncInfo:
@@ -197,6 +198,42 @@ def rearm1(ctx: Ctx, chk) -> None:
         else:
             chk.refute(rule, "presentation-clears-marker", f"under protocol {V} the presentation handler {wrong or 'does not remove the outstanding-request marker'}: after the node presented itself a further missing node/child never triggers a request again", where or "src/aiomysensors/model/protocol/protocol_20.py", version=V)
     chk.floor(rule, "2.x protocols", n, 3)
+
+
+def who_marker(ctx: Ctx, chk) -> None:
+    rule = "WHO-MARKER"
+    chk.rule(rule, "the outstanding-request markers (MessageBuffer.internal_messages) are removed only by the 2.x presentation handlers, keyed (In.node_id, In.child_id, I_PRESENTATION), and stored only by the outgoing internal handler: any other removal (a version report, a wake-up flush, a clear) re-arms the request inside an episode, any other store suppresses it")
+    I = ctx.I
+    cells = tables.handler_cells(ctx)
+    pres_defs = {}
+    for V in ctx.versions:
+        if V.startswith("2."):
+            for f in tables.chain_defs(ctx, cells[V].get(("cmd", "presentation")), V):
+                pres_defs.setdefault(f, set()).add(_presentation_value(ctx, V))
+    out_defs = set()
+    for V in ctx.versions:
+        cal = tables.outgoing_cells(ctx)[V].get(("cmd", "internal"))
+        if cal is not None:
+            out_defs |= set(tables.chain_defs(ctx, cal, V))
+    n = 0
+    for f in ctx.prog.all_functions():
+        for node, key in sb.removal_sites(ctx, f, "internal_messages"):
+            n += 1
+            chk.instance(rule)
+            k = fkey(f, node) + "::removal"
+            if f in pres_defs and key is not None and not isinstance(key, sb.HelperKey) and any(Canon(I, f).canon(key) == f"(In.node_id, In.child_id, {pv})" for pv in pres_defs[f]):
+                chk.ok(rule, k, "removal of the presented node's marker in the presentation handler", ctx.loc(f, node))
+            else:
+                chk.refute(rule, k, f"`{norm(node)[:70]}` in {f.qualname} removes outstanding-request markers outside the presentation handling of that node: the next rejected message of a node that has not presented itself writes a second request in the same episode", ctx.loc(f, node))
+        for st, _k, _v in sb.store_sites(ctx, f, "internal_messages"):
+            n += 1
+            chk.instance(rule)
+            k = fkey(f, st) + "::store"
+            if f in out_defs:
+                chk.ok(rule, k, "marker recorded by the outgoing internal handler", ctx.loc(f, st), sample=False)
+            else:
+                chk.refute(rule, k, f"`{norm(st)[:70]}` in {f.qualname} records a marker outside the outgoing internal handler: a request that was never written counts as sent", ctx.loc(f, st))
+    chk.floor(rule, "marker removals and stores", n, 2)
 
 
 def cover1(ctx: Ctx, chk) -> None:
